@@ -11,6 +11,7 @@ RULE = ("witness step functions report every execution (node, seq seen by the st
         "after init; one evaluation = one episode whose execution multiset is compared with the record / schedule; non-trivial = "
         "episode with >=1 overridden supervisor step, >=1 masked slot, or a carried-over start; distinct by spec digest x "
         "episode x driving mode")
+RULE += ' Built later: compiled rollouts after a late start (starting_step > 0); ragged stacks whose shortest episode is not the first.'
 MIN_NONTRIVIAL = {"quick": 10, "thorough": 100}
 DECIDING = ["calls_observed", "ticks_expected"]
 ASSUMPTIONS = ["jax's ordered io_callback fires exactly once per executed call site (validated on the prototype: once per scheduled "
